@@ -64,6 +64,8 @@ pub(crate) enum QuicSocketEvent {
     Request(/* stream id */ u64, Box<RequestHeaders>),
     Readable(/* stream id */ u64),
     Writable(Vec</* stream id */ u64>),
+    /// The client finished its side of the stream, the response side stays open
+    Finished(/* stream id */ u64),
     Close(/* stream id */ u64),
 }
 
@@ -993,7 +995,7 @@ impl QuicSocket {
                 }
             }
             Ok((stream_id, h3::Event::Data)) => Ok(Some(QuicSocketEvent::Readable(stream_id))),
-            Ok((stream_id, h3::Event::Finished)) => Ok(Some(QuicSocketEvent::Close(stream_id))),
+            Ok((stream_id, h3::Event::Finished)) => Ok(Some(QuicSocketEvent::Finished(stream_id))),
             Ok((stream_id, h3::Event::Reset(err))) => {
                 log_id!(
                     trace,
